@@ -2,15 +2,16 @@
 """usage: tools/seedkeep.py PROP VARIANT 'needs ...' 'caught-by ...' exitcode  -> /verif/seeded/PROP-VARIANT/"""
 import sys, os, shutil, json
 prop, var, needs, caught, rc = sys.argv[1:6]
-src = "/tmp/seeded3/%s/%s" % (prop, var)
-dst = "/verif/seeded/%s-r3%s" % (prop, var)
+RND = os.environ.get("SEED_ROUND", "4")
+src = "/tmp/seeded%s/%s/%s" % (RND, prop, var)
+dst = "/verif/seeded/%s-r%s%s" % (prop, RND, var)
 os.makedirs(dst, exist_ok=True)
 for f in ("patch.diff", "demo.py", "notes.md"):
     if os.path.exists(os.path.join(src, f)):
         shutil.copy(os.path.join(src, f), dst)
 meta = {"property": prop, "breaks": open(os.path.join(src, "notes.md")).read().split("\n\n")[0][:600] if os.path.exists(os.path.join(src, "notes.md")) else "",
         "needs_to_manifest": needs,
-        "confirmed": "tools/seedcheck.sh %s /verif/seeded/%s-r3%s : demo exits 0 on the clean tree and 1 with the patch; repository test suite with the patch: 39 failed, 474 passed, 8 errors (same as the clean tree at that time)" % (prop, prop, var),
+        "confirmed": "tools/seedcheck.sh %s /verif/seeded/%s-r" + RND + "%s : demo exits 0 on the clean tree and 1 with the patch; repository test suite with the patch: 39 failed, 474 passed, 8 errors (same as the clean tree at that time)" % (prop, prop, var),
         "check_result": {"cmd": "./vcheck %s --tier quick (patch applied to /repo, reverted afterwards)" % prop, "exit": int(rc), "caught_by": caught}}
 json.dump(meta, open(os.path.join(dst, "meta.json"), "w"), indent=1)
 print(dst)
